@@ -122,6 +122,32 @@ def nesting_grammar(rng, derive=True):
     return items
 
 
+def long_production_grammar(rng, derive=True):
+    """Productions with 10–18 fields (tuple or named, used and `_` fields mixed, repeated symbols):
+    two-digit field indices in the emitted reduce functions."""
+    ts = rng.sample(["D", "Dash", "Tt", "Colon"], rng.randint(1, 3))
+    attrs = ["#[derive(Debug)]"] if derive else []
+
+    def fieldset():
+        n = rng.randint(10, 18)
+        syms = [sym_t(ts[0]) if rng.random() < 0.7 else sym_t(rng.choice(ts)) for _ in range(n)]
+        if rng.random() < 0.6:
+            return {"kind": "tuple", "fields": [{"used": rng.random() < 0.75, "sym": x} for x in syms]}
+        return {"kind": "named", "fields": [{"name": (None if rng.random() < 0.25 else f"f{i}"), "sym": x} for i, x in enumerate(syms)]}
+
+    items = [{"kind": "start", "name": "Stamp"}]
+    if rng.random() < 0.5:
+        items.append({"kind": "struct", "attrs": list(attrs), "name": "Stamp", "fieldset": fieldset()})
+    else:
+        a, b = fieldset(), fieldset()
+        vs = [{"name": "A", "fieldset": a}]
+        if [sym_key(x) for x in fs_syms(a)] != [sym_key(x) for x in fs_syms(b)]:
+            vs.append({"name": "B", "fieldset": b})
+        items.append({"kind": "enum", "attrs": list(attrs), "name": "Stamp", "variants": vs})
+    items.append({"kind": "terminal", "attrs": list(attrs), "name": "Tok", "variants": [{"name": t, "type": "usize"} for t in ts]})
+    return items
+
+
 def layered_grammar(rng, derive=True):
     """Nonterminals N0..Nk declared top-down, each a struct (or a 2-variant enum) whose right-hand
     side refers only to later nonterminals and to terminals; many are empty.  Nullability and FIRST
